@@ -229,6 +229,23 @@ func FuzzVerifC03_QUICPlaintext(f *testing.F) {
 	f.Add([]byte{0x00, 0x00, 0x01, 0x01, 0x02}, uint8(0), uint8(8), uint8(0))
 	f.Add([]byte{0x40, 0x06, 0x00, 0x00}, uint8(1), uint8(8), uint8(2))
 	f.Add([]byte{0x06}, uint8(0), uint8(8), uint8(0))
+	// interval algebra over one stream: contained (both orders), nested, shared start / end, empty inside / at the edges, re-covering
+	cf := func(off, n int) []byte {
+		return append(v03Varint(v03Varint([]byte{0x06}, uint64(off)), uint64(n)), hello[off:off+n]...)
+	}
+	cat := func(fr ...[]byte) (out []byte) {
+		for _, x := range fr {
+			out = append(out, x...)
+		}
+		return out
+	}
+	f.Add(cat(cf(0, 60), cf(10, 5)), uint8(0), uint8(8), uint8(0))
+	f.Add(cat(cf(10, 5), cf(0, 60)), uint8(0), uint8(8), uint8(0))
+	f.Add(cat(cf(0, 60), cf(5, 40), cf(10, 20), cf(12, 3)), uint8(0), uint8(8), uint8(0))
+	f.Add(cat(cf(0, 60), cf(0, 10), cf(50, 10)), uint8(0), uint8(8), uint8(0))
+	f.Add(cat(cf(0, 60), cf(30, 0), cf(0, 0), cf(60, 0)), uint8(0), uint8(8), uint8(0))
+	f.Add(cat(cf(0, 60), cf(0, 8), cf(8, 8), cf(16, 8), cf(24, 8), cf(32, 8), cf(40, 8)), uint8(1), uint8(8), uint8(0))
+	f.Add(cat(cf(0, 30), cf(20, 30), cf(25, 2), cf(70, 3)), uint8(0), uint8(8), uint8(0))
 	f.Fuzz(func(t *testing.T, plaintext []byte, ver uint8, dcidLen uint8, pnl uint8) {
 		p := v03QPkt{version: v03V1, dcid: v03Fill(int(dcidLen)%21, 0x83), pnLen: int(pnl)%4 + 1, pn: uint32(pnl >> 2 & 3), payload: append([]byte(nil), plaintext...)}
 		if ver&1 == 1 {
